@@ -212,7 +212,7 @@ def random_history(rng, cid, maxops, K=None, H=None, V=None):
             ops.append(f"EQ {i} {rng.choice(live)}")
         elif r < 0.98 and interner:
             l = [rand_str(rng) for _ in range(rng.randrange(0, 5))]
-            ops.append(f"EX {i} {','.join(hx(x) for x in l) or '.'} {rng.choice(['exact', 'none', 'low', 'high'])}"); seen.extend(l)
+            ops.append(f"EX {i} {','.join(hx(x) for x in l) or '.'} {rng.choice(['exact', 'none', 'low', 'high'])} {rng.choice(['vec', 'lazy', 'boxed', 'refs'])}"); seen.extend(l)
         elif len(kinds) < 6:
             l = [rand_str(rng) for _ in range(rng.randrange(0, 6))]
             t = rng.choice(["r", "t"])
@@ -345,6 +345,39 @@ def serde_stream(tier, rng, count):
             ops += ["SER 0"]
         yield case(f"sd{n}", cfg(K=K, H=rng.choice(HASHERS), V=rng.choice(ROUTES)), ops)
 
+def serde_in_place(tier, rng, count):
+    """`Deserialize::deserialize_in_place` into an existing object (serde's contract: `*place = T::deserialize(d)?`):
+    a refused document leaves the object as it was, an accepted one replaces it.  Monitor-only, expectations stated here."""
+    for n in range(count):
+        kind = ["rodeo", "rodeo", "reader", "resolver", "threaded"][n % 5]
+        old = list(dict.fromkeys(rand_str(rng) for _ in range(rng.randrange(1, 6))))
+        old = [x for x in old if x] or [b"o"]
+        newd = list(dict.fromkeys(rand_str(rng) for _ in range(rng.randrange(1, 7))))
+        newd = [x for x in newd if x and x not in old] or [b"n"]
+        ctor = "NT" if kind == "threaded" else "NR"
+        ops = [f"EXP NEW0 {ctor} {rng.choice([4, 64, 4096])} {lim(rng.choice([None, 100000]))} 0 {n}"] + [f"EXP K{i} I 0 {hx(x)}" for i, x in enumerate(old)]
+        if kind == "reader":
+            ops.append("EXP U RD 0")
+        elif kind == "resolver":
+            ops.append("EXP U RS 0")
+        good = ("M:" + ",".join(f"{hx(x)}={i + 1}" for i, x in enumerate(newd))) if kind == "threaded" else ("L:" + ",".join(hx(x) for x in newd))
+        mode = n % 3
+        if mode == 0 and kind != "resolver":
+            # refused half-way: a repeat far down the list / a repeated key in the map
+            bad = (good + f",{hx(newd[0] + b'~')}={len(newd)}") if kind == "threaded" else (good + "," + hx(newd[0]))
+            ops.append(f"EXP DE:err DEI 0 {kind} {bad}")
+            ops += [f"EXP #{len(old)} LEN 0"] + [f"EXP S:{hx(x)} TR 0 {i}" for i, x in enumerate(old)]
+            if kind != "resolver":
+                ops += [f"EXP K{i} G 0 {hx(x)}" for i, x in enumerate(old)] + [f"EXP N G 0 {hx(newd[0])}"]
+        else:
+            ops.append(f"EXP U DEI 0 {kind} {good}")
+            ops += [f"EXP #{len(newd)} LEN 0"] + [f"EXP S:{hx(x)} TR 0 {i}" for i, x in enumerate(newd)]
+            if kind != "resolver":
+                ops += [f"EXP K{i} G 0 {hx(x)}" for i, x in enumerate(newd)] + [f"EXP N G 0 {hx(old[0])}"]
+            if kind in ("rodeo", "threaded"):
+                ops += [f"EXP K{len(newd)} I 0 {hx(b'after-in-place')}", f"EXP K0 I 0 {hx(newd[0])}"]
+        yield case(f"MO-dei{n}", cfg(K="spur", H=rng.choice(HASHERS)), ops)
+
 def serde_big(tier, rng):
     """documents large enough to make the deserialiser's own tables grow several times.  Monitor-only (the model
     runner is cubic on documents whose strings all collide): the generator states the expected answers itself --
@@ -473,10 +506,18 @@ def eq_pairs(tier, rng, count):
             if conv:
                 ops.append(f"{conv} {which}")
         ops += ["EQ 0 1", "EQ 1 0", "EQ 0 0", "EQ 1 1"]
+        peq = (n % 25 == 7)
+        if peq:
+            ops += ["PEQ 0 1", "EQ 0 1"]       # both directions at once, on separate threads: same answer, and it must come
         K = rng.choice(["spur", "micro", "cap5", "large"])
         if K == "cap5":
             pass
-        yield case(f"eq{n}", cfg(K=K if len(base) <= 5 and len(other) <= 5 else "spur", H=rng.choice(HASHERS), P=entries), ops)
+        yield case(f"eq{n}", cfg(K=K if len(base) <= 5 and len(other) <= 5 else "spur", H=(rng.choice(["c0", "fnv"]) if peq else rng.choice(HASHERS)), P=entries), ops)
+    # two concurrent interners with the same contents, compared in both directions at once
+    for c, H in enumerate(["c0", "fnv", "rs"]):
+        strs = [b"t%d" % i for i in range(40)]
+        ops = ["NT 64 max 0 1", "NT 8 max 0 2"] + [f"I 0 {hx(x)}" for x in strs] + [f"I 1 {hx(x)}" for x in strs] + ["PEQ 0 1", "EQ 1 0", "LEN 0"]
+        yield case(f"eqp{c}", cfg(K="spur", H=H), ops)
 
 def eq_static_slices(rng, count):
     """same key, 'static strings that START AT THE SAME ADDRESS but differ in length (a slice and its base)"""
@@ -660,14 +701,21 @@ def collections(tier, rng, count):
         l = [rand_str(rng) for _ in range(rng.randrange(0, 9))]
         t = rng.choice(["r", "t"])
         hint = ["exact", "none", "low", "high"][n % 4]
-        ops = [f"FI {t} {hint} {','.join(hx(x) for x in l) or '.'}"]
+        shape = ["vec", "lazy", "boxed", "refs"][(n // 2) % 4]
+        ops = [f"FI {t} {hint} {','.join(hx(x) for x in l) or '.'} {shape}"]
         # the explicit sequence on a twin
         ops.append(f"{'NR' if t == 'r' else 'NT'} 4096 max 50 {n}")
         for s in l:
             ops.append(f"IP 1 {hx(s)}")
         ops += ["EQ 0 1", "IT 0 nnnnnnnnnn", "IT 1 nnnnnnnnnn"]
         l2 = [rand_str(rng) for _ in range(rng.randrange(0, 6))] + l[:2]
-        ops.append(f"EX 0 {','.join(hx(x) for x in l2) or '.'} {['exact', 'none', 'low', 'high'][(n // 4) % 4]}")
+        if n % 3 == 0:
+            # runs of distinct items of EQUAL length, produced one at a time: each owned item is dropped before the next is
+            # built, so consecutive items may live at the same address
+            w = rng.choice([1, 2, 3, 5, 8])
+            l2 = [bytes(rng.choice(b"abcdxyz") for _ in range(w)) for _ in range(rng.randrange(3, 9))] + l2
+        shape2 = ["lazy", "boxed", "vec", "refs"][n % 4]
+        ops.append(f"EX 0 {','.join(hx(x) for x in l2) or '.'} {['exact', 'none', 'low', 'high'][(n // 4) % 4]} {shape2}")
         for s in l2:
             ops.append(f"IP 1 {hx(s)}")
         ops += ["EQ 0 1", "LEN 0", "LEN 1", "IX 0 0", "R 0 0", f"IX 0 {len(l) + len(l2) + 1}", f"R 1 {len(l) + len(l2) + 1}", "IT 0 bbbbbbbbbbbbbbbb"]
